@@ -1,6 +1,7 @@
 import OnlVerif.Lemmas.ConserveStore
 import OnlVerif.Lemmas.ConserveTrace
 import OnlVerif.Lemmas.ConserveFifo
+import OnlVerif.Lemmas.ConserveDecide
 /-!
 # Concrete runs used as non-vacuity witnesses by `Props/C06.lean` and `Props/C07.lean`
 
@@ -135,3 +136,34 @@ theorem reach13 : SafeReach body 5 s1 s3 :=
     (stepOK_of_noTrig body noTrig 5 s2) (stepSt_spec body 5 s2 (by decide +kernel))
 
 end ExPrio
+
+namespace ExSucceed
+
+/-- inside the domain although it calls `succeed`: the target is a plain event -/
+def body : Nat → Resume → Burst ℚ Nat := fun _ _ =>
+  .call .event fun rp => match rp with
+    | .ev e => .call (.succeed e (.int 1)) fun _ => .call (.cput 0 3) fun _ => .ret .none
+    | _ => .ret .none
+
+def s0 : KState ℚ Nat := spawned ExContainer.rs 0
+def s1 : KState ℚ Nat := stepSt body 5 s0
+
+theorem wf0 : WF s0 := ExContainer.wf0
+theorem noReq0 : ∀ e, isReq s0 e = false := ExContainer.noReq0
+theorem reach : SafeReach body 5 s0 s1 :=
+  SafeReach.step SafeReach.init (by decide +kernel) (stepSt_spec body 5 s0 (by decide +kernel))
+
+end ExSucceed
+
+namespace ExBad
+
+/-- outside the domain: the program itself triggers a waiting `ContainerPut` (amount 20 on capacity 10) -/
+def body : Nat → Resume → Burst ℚ Nat := fun _ _ =>
+  .call (.cput 0 20) fun rp => match rp with
+    | .ev e => .call (.succeed e .none) fun _ => .ret .none
+    | _ => .ret .none
+
+def s0 : KState ℚ Nat := spawned ExContainer.rs 0
+def s1 : KState ℚ Nat := stepSt body 5 s0
+
+end ExBad
